@@ -43,12 +43,30 @@ impl Future for EventFut {
 
 struct Gate { open: rt::sync::Mutex<bool>, cv: rt::sync::Condvar }
 
+/// Harness-made input stream (built on std primitives only: nothing here may block across a controlled context switch)
+pub struct StreamCore {
+    st: StdMutex<(std::collections::VecDeque<u64>, bool, Option<std::task::Waker>)>,
+    pub pushed: AtomicU64, pub released: AtomicBool, pub processed: StdMutex<Vec<u64>>, pub received: StdMutex<Vec<u64>>, pub ended_seen: AtomicBool,
+    pub polls_after_gone: AtomicUsize,
+}
+pub struct HStream { core: Arc<StreamCore> }
+impl futures::Stream for HStream {
+    type Item = u64;
+    fn poll_next(self: Pin<&mut Self>, cx: &mut Context) -> Poll<Option<u64>> {
+        rt::thread::yield_now();
+        let mut st = self.core.st.lock().unwrap();
+        if let Some(x) = st.0.pop_front() { Poll::Ready(Some(x)) } else if st.1 { Poll::Ready(None) } else { st.2 = Some(cx.waker().clone()); Poll::Pending }
+    }
+}
+impl Drop for HStream { fn drop(&mut self) { self.core.released.store(true, SeqCst); } }
+
 pub struct Ctx {
     pub prog: Program,
     objs: Vec<StdMutex<Option<Arc<Desync<Payload>>>>>,
     pub mons: Vec<Arc<ObjMon>>,
     events: Vec<EventCell>,
     gates: Vec<Gate>,
+    pub streams: Vec<Arc<StreamCore>>,
     pub clock: Arc<AtomicU64>,
     pub ops: StdMutex<Vec<OpRec>>,
     pub errors: StdMutex<Vec<String>>,
@@ -188,7 +206,7 @@ pub fn block_on<F: Future + Unpin>(mut f: F, max_polls: Option<usize>) -> Option
 }
 
 #[derive(Default)]
-pub struct Local { resumer: Option<desync::scheduler::QueueResumer> }
+pub struct Local { resumer: Option<desync::scheduler::QueueResumer>, out: Option<(usize, desync::PipeStream<u64>)> }
 
 fn check_ok_token(ctx: &Ctx, oid: usize, what: &str, got: Option<usize>) {
     let obj = ctx.with_op(oid, |r| r.obj);
@@ -220,6 +238,56 @@ pub fn exec_op(ctx: &Arc<Ctx>, op: &Op, caller: usize, nested: bool, local: &mut
             return;
         }
         Op::ExpectPanic(q) => { expect_panic(ctx, *q, caller); return; }
+        Op::Produce(k, n) => {
+            for _ in 0..*n {
+                let sc = &ctx.streams[*k];
+                let w = { let mut st = sc.st.lock().unwrap(); let x = sc.pushed.fetch_add(1, SeqCst); st.0.push_back(x); st.2.take() };
+                rt::thread::yield_now();
+                if let Some(w) = w { w.wake(); }
+            }
+            return;
+        }
+        Op::CloseStream(k) => { let w = { let mut st = ctx.streams[*k].st.lock().unwrap(); st.1 = true; st.2.take() }; if let Some(w) = w { w.wake(); } return; }
+        Op::Consume(n) => {
+            use futures::StreamExt;
+            if let Some((k, s)) = local.out.as_mut() {
+                let mut got = 0;
+                loop {
+                    if *n > 0 && got >= *n { break; }
+                    match block_on(s.next(), None).unwrap() {
+                        Some(v) => { ctx.streams[*k].received.lock().unwrap().push(v); got += 1; }
+                        None => { ctx.streams[*k].ended_seen.store(true, SeqCst); break; }
+                    }
+                }
+            }
+            return;
+        }
+        Op::DropStream => { local.out.take(); return; }
+        Op::AwaitRelease(k) => {
+            // the pipe must let go of its input stream and closure: wait for it (a pipe that never does is reported as a hang)
+            while !ctx.streams[*k].released.load(SeqCst) { rt::thread::yield_now(); }
+            return;
+        }
+        Op::PipeIn(q, k) => {
+            let obj = match ctx.obj(*q) { Some(o) => o, None => return };
+            let (c2, k2, q2) = (ctx.clone(), *k, *q);
+            desync::pipe_in(obj, HStream { core: ctx.streams[*k].clone() }, move |p: &mut Payload, item: u64| {
+                pipe_process(&c2, k2, q2, p, item);
+                futures::future::ready(()).boxed()
+            });
+            return;
+        }
+        Op::Pipe(q, k, d) => {
+            let obj = match ctx.obj(*q) { Some(o) => o, None => return };
+            let (c2, k2, q2) = (ctx.clone(), *k, *q);
+            let mut out = desync::pipe(obj, HStream { core: ctx.streams[*k].clone() }, move |p: &mut Payload, item: u64| {
+                pipe_process(&c2, k2, q2, p, item);
+                futures::future::ready(item * 10 + 7).boxed()
+            });
+            if *d > 0 { out.set_backpressure_depth(*d); }
+            local.out = Some((*k, out));
+            return;
+        }
         _ => {}
     }
     let q = op.obj().unwrap();
@@ -339,6 +407,50 @@ pub trait MaybeSync: Sized { fn sync_wait(self) -> Result<usize, futures::channe
 impl MaybeSync for desync::scheduler::SchedulerFuture<usize> { fn sync_wait(self) -> Result<usize, futures::channel::oneshot::Canceled> { self.sync() } }
 impl<'a> MaybeSync for BoxFuture<'a, Result<usize, futures::channel::oneshot::Canceled>> { fn sync_wait(self) -> Result<usize, futures::channel::oneshot::Canceled> { block_on(self, None).unwrap() } }
 
+/// The processing function of a pipe: runs inside the object's exclusive access (occupancy checked like any operation)
+fn pipe_process(ctx: &Arc<Ctx>, k: usize, q: usize, p: &mut Payload, item: u64) {
+    if p.mon.dead.load(SeqCst) || p.canary != 0xC0FFEE { ctx.error("C05", format!("pipe {} processed item {} on object {} after it was freed", k, item, q)); }
+    let occ = p.mon.occ.fetch_add(1, SeqCst) + 1;
+    if occ != 1 { ctx.error("C01", format!("pipe {} processed item {} on object {} while {} other operation(s) in progress", k, item, q, occ - 1)); }
+    if ctx.touch_yield { p.canary = 0xABCD00 + item; rt::thread::yield_now(); if p.canary != 0xABCD00 + item { ctx.error("C01", format!("pipe {} saw object {} modified concurrently", k, q)); } p.canary = 0xC0FFEE; }
+    ctx.streams[k].processed.lock().unwrap().push(item);
+    p.mon.occ.fetch_sub(1, SeqCst);
+}
+
+/// End-of-run oracles for pipes: every item the input yielded was processed once, in order; outputs are one per input, in order
+pub fn pipe_oracles(ctx: &Arc<Ctx>) {
+    let mut kind: std::collections::HashMap<usize, (char, usize)> = Default::default();
+    let mut dropped_obj: std::collections::HashSet<usize> = Default::default();
+    let mut consumed_all: std::collections::HashSet<usize> = Default::default();
+    let mut stream_dropped = false;
+    for c in ctx.prog.callers.iter() { for o in c { match o {
+        Op::PipeIn(q, k) => { kind.insert(*k, ('I', *q)); }
+        Op::Pipe(q, k, _) => { kind.insert(*k, ('J', *q)); }
+        Op::DropObj(q) => { dropped_obj.insert(*q); }
+        Op::DropStream => { stream_dropped = true; }
+        Op::Consume(0) => { for (k, _) in kind.iter() { consumed_all.insert(*k); } }
+        _ => {}
+    } } }
+    for (k, (kd, q)) in kind.iter() {
+        let sc = &ctx.streams[*k];
+        let pushed = sc.pushed.load(SeqCst);
+        let processed = sc.processed.lock().unwrap().clone();
+        let prop = if *kd == 'I' { "C11" } else { "C12" };
+        for (i, x) in processed.iter().enumerate() { if *x != i as u64 { ctx.error(prop, format!("pipe {}: items processed out of order or twice: {:?}", k, processed)); break; } }
+        let ended = sc.st.lock().unwrap().1;
+        if ended && !dropped_obj.contains(q) && !stream_dropped && processed.len() as u64 != pushed { ctx.error(prop, format!("pipe {}: {} items were yielded by the input but {} processed: {:?}", k, pushed, processed.len(), processed)); }
+        if *kd == 'J' {
+            let received = sc.received.lock().unwrap().clone();
+            for (i, v) in received.iter().enumerate() { if *v != (i as u64) * 10 + 7 { ctx.error("C12", format!("pipe {}: outputs lost, duplicated or reordered: {:?}", k, received)); break; } }
+            if consumed_all.contains(k) && !stream_dropped {
+                if !sc.ended_seen.load(SeqCst) { ctx.error("C12", format!("pipe {}: the output stream did not end", k)); }
+                if received.len() as u64 != pushed { ctx.error("C12", format!("pipe {}: {} inputs but {} outputs: {:?}", k, pushed, received.len(), received)); }
+            }
+        }
+        if !sc.released.load(SeqCst) && ctx.prog.callers.iter().flatten().any(|o| *o == Op::AwaitRelease(*k)) { ctx.error(if stream_dropped { "C16" } else { prop }, format!("pipe {} never released its input stream", k)); }
+    }
+}
+
 /// After the unwinding has finished every scheduling attempt on a panicked object must panic (not run, not block)
 fn expect_panic(ctx: &Arc<Ctx>, q: usize, _caller: usize) {
     use std::panic::{catch_unwind, AssertUnwindSafe};
@@ -369,6 +481,7 @@ pub fn make_ctx(prog: &Program, fail_fast: bool, touch_yield: bool) -> Arc<Ctx> 
         prog: prog.clone(), objs, mons,
         events: (0..prog.nev).map(|_| EventCell { st: StdMutex::new((false, vec![])) }).collect(),
         gates: (0..prog.ngates).map(|_| Gate { open: rt::sync::Mutex::new(false), cv: rt::sync::Condvar::new() }).collect(),
+        streams: (0..prog.nstreams()).map(|_| Arc::new(StreamCore { st: StdMutex::new((Default::default(), false, None)), pushed: AtomicU64::new(0), released: AtomicBool::new(false), processed: StdMutex::new(vec![]), received: StdMutex::new(vec![]), ended_seen: AtomicBool::new(false), polls_after_gone: AtomicUsize::new(0) })).collect(),
         clock, ops: StdMutex::new(vec![]), errors: StdMutex::new(vec![]),
         pending: AtomicUsize::new(0), latch: rt::sync::Mutex::new(()), latch_cv: rt::sync::Condvar::new(), fail_fast, touch_yield,
         panics_started: AtomicUsize::new(0), panics_caught: AtomicUsize::new(0), panic_base: desync::verif::thread::PANICKED_THREADS.load(SeqCst),
@@ -419,7 +532,10 @@ pub fn run_program(ctx: &Arc<Ctx>) {
             if r.is_ok() && ctx.mons[q].drops.load(SeqCst) > 0 { ctx.error("C15", format!("dropping the panicked object {} ran its free operation", q)); }
         } else { drop(o); }
     }
+    // a pipe releases its strong reference asynchronously (on the disposal object): wait for the value to be freed; never = a hang
+    for c in prog.callers.iter() { for o in c { if let Op::Pipe(q, _, _) = o { while ctx.mons[*q].drops.load(SeqCst) == 0 { rt::thread::yield_now(); } } } }
     end_oracles(ctx, n_at_quiet);
+    pipe_oracles(ctx);
     // Teardown of the pool
     let s = desync::scheduler::scheduler();
     let n = s.verif_thread_count();
